@@ -2,6 +2,7 @@ import IdpyVerif.Driver.C14
 import IdpyVerif.Driver.C17
 import IdpyVerif.Driver.Prov
 import IdpyVerif.Driver.Msg
+import IdpyVerif.Driver.Redirect
 open Idpy
 
 structure DState where
@@ -11,6 +12,7 @@ structure DState where
 def dispatch (st : DState) (fields : List String) : DState × String :=
   match fields with
   | "lv" :: args => (st, (Driver.C14.codec args).getD "bad-op")
+  | "redir" :: args => (st, (Driver.Redirect.handle args).getD "bad-op")
   | "msg" :: args => (st, (Driver.Msg.handle args).getD "bad-op")
   | "cookie" :: args => (st, (Driver.C17.handle args).getD "bad-op")
   | "prov" :: args =>
